@@ -60,25 +60,24 @@ class VariableAccessTransformer(converter.Base):
   def visit_Delete(self, node):
     node = self.generic_visit(node)
 
-    rewrite_targets = []
-    for tgt in node.targets:
+    if not any(isinstance(tgt, ast.Name) for tgt in node.targets):
       # Don't rewrite composites like `del a[0]`.
-      if isinstance(tgt, ast.Name):
-        rewrite_targets.append(tgt)
-
-    if not rewrite_targets:
       return node
 
+    # The targets are deleted one by one, left to right, as Python does.
     results = []
-    for tgt in rewrite_targets:
-      template = """
-        var_ = ag__.Undefined(var_name)
-      """
-      results.extend(templates.replace(
-          template, var_=tgt, var_name=ast.Constant(tgt.id)))
-    remaining_targets = [n for n in node.targets if n not in rewrite_targets]
-    if remaining_targets:
-      results.append(ast.Delete(targets=remaining_targets))
+    for tgt in node.targets:
+      if isinstance(tgt, ast.Name):
+        # Deleting an unbound name is an error: the read raises it before the
+        # name is rebound to the placeholder.
+        template = """
+          ag__.ld(var_)
+          var_ = ag__.Undefined(var_name)
+        """
+        results.extend(templates.replace(
+            template, var_=tgt, var_name=ast.Constant(tgt.id)))
+      else:
+        results.append(ast.Delete(targets=[tgt]))
 
     return results
 
